@@ -13,3 +13,4 @@ import BevySyncModel.Props.C05
 import BevySyncModel.Props.C08
 import BevySyncModel.Props.C09
 import BevySyncModel.Props.C10
+import BevySyncModel.Props.C06
